@@ -199,6 +199,41 @@ def calls_after(fn, bb, include_transparent=False):
     return out
 
 
+def stores(fn):
+    """Assignments through a projection (field / deref writes) in live blocks:
+    (bb, stmt index, place, value tree)."""
+    out = []
+    for i, b in enumerate(fn.blocks):
+        if i not in fn.cfg.live:
+            continue
+        for j, st in enumerate(b["s"]):
+            if st[0] == "=" and len(st[1]) > 1:
+                out.append((i, j, st[1], fn.flow.rvalue_tree(st[2], i, j)))
+    return out
+
+
+def place_str(fn, pl):
+    base = fn.local_name(pl[0]) or ("arg%d" % pl[0] if 1 <= pl[0] <= fn.argc else "_%d" % pl[0])
+    return base + "".join(p for p in pl[1:] if p != "*")
+
+
+def branch_edges(fn, rx, val):
+    """(switch block, successor) of every live branch edge whose decoded predicate matches rx == val."""
+    from ..engine import decode_pred
+    out = []
+    for a in sorted(fn.cfg.live):
+        succ = fn.cfg.succ[a]
+        if len({s for s, _ in succ}) < 2:
+            continue
+        for (s, lab) in succ:
+            p = decode_pred(fn, a, lab)
+            for q in expand_pred(fn, p):
+                if re.search(rx, show(q.tree)) and q.val == val:
+                    out.append((a, s))
+                    break
+    return out
+
+
 def closure_parent(F, fn):
     p = fn.meta.get("parent")
     return F.fns.get(p) if p else None
